@@ -382,6 +382,36 @@ fn judge_diagram<S: BDDSymbol>(plan: &DotPlan, w: &World<S>, stats: &mut Stats, 
             }
         }
     }
+    // D3 on a diagram that is NOT interned: a plain tree of Rc::new values (what From<BDD<NamedSymbol>>
+    // or a hand-written diagram looks like: every leaf and node is its own allocation). Judged only when
+    // the reduced diagram has no shared test node, i.e. when "distinct node" and "allocation" still
+    // coincide for test nodes; the leaves do exist in many allocations and must be declared once each.
+    let plain = canon_tt::<S>(&target, &*w.sym);
+    fn tree_choices<S: BDDSymbol>(d: &BDD<S>) -> usize {
+        match d {
+            BDD::Choice(t, _, f) => 1 + tree_choices(t) + tree_choices(f),
+            _ => 0,
+        }
+    }
+    if tree_choices(&plain) == distinct_choice_nodes(&plain) {
+        bump(stats, "probe.plain_tree_exported");
+        match render(&plain, TruthTableEntry::Any) {
+            Err(e) => vs.push(viol("D3", "render-plain", e)),
+            Ok(bp) => match parse_dot(&String::from_utf8_lossy(&bp)) {
+                Err(e) => vs.push(viol("D3", "syntax-plain", format!("export of an un-interned diagram does not read back: {e}"))),
+                Ok(gp) => {
+                    if let Err(e) = gp.well_formed() {
+                        vs.push(viol("D3", "declarations-plain", format!("export of an un-interned diagram (no shared test nodes): {e}")));
+                    } else {
+                        let rp = gp.roots();
+                        if rp.len() != 1 || gp.canonical_form(rp[0]) != g.canonical_form(&root) {
+                            vs.push(viol("D3", "isomorphism-plain", "export of an un-interned copy of the diagram is not isomorphic to the export of the interned one".into()));
+                        }
+                    }
+                }
+            },
+        }
+    }
     drop(junk);
     drop(junk2);
     drop(keep);
